@@ -17,13 +17,14 @@ func init() {
 			"(R1) inside one operation no path leads from a row mutation (table length, entity index, entity pool) to the dispatch of a removal event; (R2) no path leads from the dispatch of a creation/addition/set/relation-assignment event to a row mutation; " +
 			"(R3) after a table was emptied (Reset, or source of a bulk move) no row of that same table value is read; (R4) the entity handed to observers is the operation's own entity parameter, a freshly created entity, or a row read from a table; " +
 			"(R5) a dispatch loop over table rows visits exactly the affected rows: removal events rows [0,len) of the source table, all other events rows [start,start+count) of the destination table with start traced to the destination's length read before it grew and count to the moved/created count (through helper results, batch-record fields and parameters); " +
-			"removal events and batch callbacks run under the internal lock (decided by C07/R2). Not decided: the values read inside callbacks.",
+			"(R6) removal events, events dispatched row by row in a loop (batch operations) and batch callbacks run under the internal lock (rule C07/R2, path-sensitive: `shouldLock := a || b; if shouldLock { lock } ... if b { fire }` is understood). Not decided: the values read inside callbacks.",
 		TrustedBase: []string{"go/types, go/cfg", "anchor table (row-state fields)", "fire-function role = indirect call through observerData.callback; event kind from the EventType constant"},
 		Rules: []Rule{
 			{ID: "C09/R1+R2", Run: c09r1r2, Min: 1},
 			{ID: "C09/R3", Run: c09r3, Min: 1},
 			{ID: "C09/R4", Run: c09r4, Min: 1},
 			{ID: "C09/R5", Run: c09r5, Min: 1},
+			{ID: "C09/R6", Run: c07r2r3, Min: 1},
 		},
 	})
 }
